@@ -198,6 +198,9 @@ ReencodesExactly == (l > 1 /\ CommitOK(Cur)) => \A i \in 1..Len(Cur.regs) : Cur.
 FlagsTruthful == (l > 1 /\ CommitOK(Cur)) => \A i \in 1..Len(Cur.regs) : FlagsOf(Cur.regs[i], ColdSlabNodes(Cur))
 \* C06: the size a slab reports equals the bytes written
 EncodedLenRelation == (l > 1 /\ CommitOK(Cur)) => \A i \in 1..Len(Cur.regs) : SizeOf(Cur.regs[i], ColdSlabNodes(Cur))
+\* C09 on the ledger: after a successful commit the registers are exactly the slabs reachable from the roots held by the caller
+\* (nothing the history released is left behind in the ledger, nothing reachable is missing from it)
+NoLeakInLedger == (l > 1 /\ CommitOK(Cur)) => {Cur.regs[i].id : i \in 1..Len(Cur.regs)} = {Cur.st.reach[i] : i \in 1..Len(Cur.st.reach)}
 
 TraceAccepted ==
   LET d == TLCGet("stats").diameter IN
